@@ -53,13 +53,14 @@ PROPS["C08"] = {
     "files": ["types/validator_set.go", "types/validator.go", "state/store.go"],
     "groups": [
         {"dir": "types",
-         "quick": ["VP_C08_Update_n1_c1", "VP_C08_Update_n2_c1", "VP_C08_Update_n2_c2", "VP_C08_Rotation_n2_T3", "VP_C08_Rotation_n2_T4", "VP_C08_Rotation_n3_T4"],
-         "thorough": ["VP_C08_Update_n3_c2", "VP_C08_Rotation_n3_T5", "VP_C08_Rotation_n3_T6", "VP_C08_Rotation_n2_big"]},
+         "quick": ["VP_C08_Update_n1_c1", "VP_C08_Update_n2_c1", "VP_C08_Update_n2_c2", "VP_C08_Rescale_n2", "VP_C08_Rotation_n2_T3", "VP_C08_Rotation_n2_T4", "VP_C08_Rotation_n3_T4"],
+         "thorough": ["VP_C08_Update_n3_c2", "VP_C08_Rescale_n3", "VP_C08_Rotation_n3_T5", "VP_C08_Rotation_n3_T6", "VP_C08_Rotation_n2_big"]},
         {"dir": "state",
          "quick": ["VP_C08_History_n2_low", "VP_C08_History_n2_low_change", "VP_C08_History_n2_checkpoint", "VP_C08_History_n3_checkpoint", "VP_C08_History_n2_checkpoint_change"],
          "thorough": []},
     ],
     "bounds": {
+        "rescale": "RescalePriorities on 2 (thorough 3) validators with arbitrary priorities in [-24,24] and a window of 1..8 against the specified ceiling division",
         "update": "current set of n = 1..2 (thorough 3) validators (powers 5,3,3) built by the real NewValidatorSet; batch of c = 1..2 changes, each: address from a pool of n+2 (existing or fresh, duplicates possible), power = 0 | symbolic in [1,2^12] | symbolic negative or above the cap | symbolic within 16 of MaxTotalVotingPower; the reversed batch is applied to a copy",
         "rotation": "n = 2..3 validators with symbolic powers, total <= 3..6 (one configuration with total up to MaxTotalVotingPower), T = total steps of the real IncrementProposerPriority(1) against the specified algorithm (centre, add power, pick max with address tie-break, subtract total)",
         "history": "chain segments of 4..5 heights at heights 5.. and 99998..100002 (crossing the 100000 checkpoint), n = 2..3 validators, powers 1..4 and the change height / new power concretised (one branch per value), saved with the real saveValidatorsInfo on the real MemDB, every height looked up with LoadValidators",
@@ -325,12 +326,12 @@ PROPS["C02"] = {
     "files": ["consensus/state.go", "consensus/types/height_vote_set.go", "types/vote_set.go"],
     "groups": [
         {"dir": "consensus",
-         "quick": ["VP_C02_Base", "VP_C02_Step_R1_vote_lockfocus", "VP_C02_Step_R2_vote_lockfocus_top", "VP_C02_Step_R1_timeout_lockfocus", "VP_C02_Step_R1_part_lockfocus", "VP_C02_Step_R1_txs"],
+         "quick": ["VP_C02_Base", "VP_C02_Step_R1_vote_lockfocus", "VP_C02_Step_R1_vote_polproposal", "VP_C02_Step_R2_vote_lockfocus_top", "VP_C02_Step_R1_timeout_lockfocus", "VP_C02_Step_R1_part_lockfocus", "VP_C02_Step_R1_txs"],
          "thorough": ["VP_C02_Step_R1_vote_locked", "VP_C02_Step_R1_timeout", "VP_C02_Step_R1_proposal", "VP_C02_Step_R1_part"]},
     ],
     "bounds": {
         "inductive step of the real consensus.State": "one arbitrary event (vote of any type/round/block; timeout; proposal; block part; txs-available) applied by the real handleMsg/handleTimeout/handleTxsAvailable to a state whose Round (0..R), Step (all 8), LockedRound, ValidRound, CommitRound, TriggeredTimeoutPrecommit, vote-set summary for rounds 0..R+1 and signing ghost are symbolic and constrained only by the invariant INV; INV is asserted again afterwards and on the NewState state (base), so every reachable state of a height is covered for rounds <= R; R=1 (thorough: also R=2 for votes); obligations L1-L5 asserted inside the signer at every signature",
-        "slices": "quick entries cover the pre-state slice 'locked on A, valid block A, proposal block none/A, no proposal message, votes of the current height for nil/A/B' for votes (R=1, and R=2 with the node in round 2), timeouts and parts, and every shape for txs-available; thorough entries cover every shape for timeouts, proposals, parts and the slice 'locked on A, valid A/B, proposal block none/A/B' for votes",
+        "slices": "quick entries cover the pre-state slice 'locked on A, valid block A, proposal block none/A, no proposal message, votes of the current height for nil/A/B' for votes (R=1, and R=2 with the node in round 2; plus the slice 'not locked, complete proposal block A with a proposal message of any POL round'), timeouts and parts, and every shape for txs-available; thorough entries cover every shape for timeouts, proposals, parts and the slice 'locked on A, valid A/B, proposal block none/A/B' for votes",
     },
     "stubs": _STEP_STUBS,
     "outside": _STEP_OUT + ["vote events from the unlocked slice (run as VP_C02_Step_R1_vote_unlocked / VP_C02_Step_R1_vote, more than 250k paths: not completed within 30 minutes, not registered)"],
@@ -348,7 +349,7 @@ PROPS["C03"] = {
         "T1 timeouts grow": "config.ConsensusConfig.Propose/Prevote/Precommit for every round in [0, 65536), default configuration and configurations with arbitrary deltas in [1 ms, 10 s]",
         "T2 rotation": "3 validators with powers in 1..3 each, starting 0..3 rounds into the rotation: over (total power) rounds each proposes exactly (power) times",
         "T3/T4 round skipping, re-proposal, unlock": "the step harness of C02 (lock-focus slice, R=2, node in round 2): T4a asserted at every SignProposal, T4b (a later polka for something else releases the lock) after every vote",
-        "T5 commit waits for the block": "real consensus.State with real vote sets, 4 validators: decision seen without the block, then one of {nothing, round-1 prevotes for the block, round-1 prevotes for nil, round-1 precommits for nil}, then all parts (round 0 and 1), all votes again and all scheduled timeouts, twice",
+        "T5 commit waits for the block": "real consensus.State with real vote sets, 4 validators: decision seen without the block, then one of {nothing, round-1 prevotes for the block, round-1 prevotes for nil, round-1 precommits for nil, a signed proposal for another block in the node's round}, then all parts (round 0 and 1), all votes again and all scheduled timeouts, twice",
     },
     "stubs": _STEP_STUBS,
     "outside": _STEP_OUT + ["end-to-end termination (an unbounded multi-node schedule suffix) is not decided: only the anchored mechanisms are, as bounded lemmas"],
